@@ -7,7 +7,7 @@ One JSON object per input line, one JSON object per output line.
      E        = {"fn":C} | {"cls":{"init":C|null,"mro":[i,...],"meths":[C,...],"cmeths":[C,...]}}
      C        = {"params":[{"name":s,"ty":[atom,...],"dflt":null|{"tok":s,"key":s,"str":s},"kind":"pk"|"ko"},...],
                  "varkw":b,"uses":[{"g":"a"|{"const":b}|{"branch":i},"u":U},...]}
-     U        = {"pop":[n,D]} | {"get":[n,D]} | {"super":{"frm":null|i,"k":k,"given":[n,...]}}
+     U        = {"pop":[n,D]} | {"get":[n,D]} | {"popin":[n,D]} (a pop inside the argument list of the call before it) | {"super":{"frm":null|i,"k":k,"given":[n,...]}}
               | {"call":{"t":["entry",i]|["self",j]|["cls"]|["cmeth",c,j]|["attr",i],"k":k,"given":[n,...]}}
                 ("cmeths" of a class = the classmethods it offers, inherited ones included; ["cmeth",c,j] = `Cls_c.factory_j(…)`;
                  ["attr",i] = `self._kw = kwargs` … `entry_i(…, **self._kw)` in a method/property)
@@ -83,6 +83,9 @@ def useOf (j : Json) : Use :=
     match j.getObjVal? "get" with
     | .ok (.arr #[.str n, d]) => .get n (dvalOf d)
     | _ =>
+     match j.getObjVal? "popin" with
+     | .ok (.arr #[.str n, d]) => .popIn n (dvalOf d)
+     | _ =>
       match j.getObjVal? "super" with
       | .ok s =>
         let frm := match s.getObjVal? "frm" with
